@@ -443,8 +443,17 @@ func groupRuns(evs []mrEvent) []*runObs {
 		order = append(order, g)
 		return o
 	}
+	// a run is a stretch of events on ONE goroutine from before its StartedAnnealing to its FinishedAnnealing: the Runner may
+	// give every run a goroutine of its own (the pinned code) or have a worker anneal several runs one after the other
+	seg := map[string]int{}
 	for _, ev := range evs {
-		o := get(ev.fields["g"])
+		g := ev.fields["g"]
+		cur := get(fmt.Sprintf("%s#%d", g, seg[g]))
+		if cur.finN > 0 || (ev.kind == 'S' && cur.startN > 0) {
+			seg[g]++
+		}
+		o := get(fmt.Sprintf("%s#%d", g, seg[g]))
+		o.g = g
 		o.eventIDs[ev.fields["id"]] = true
 		switch ev.kind {
 		case 'S':
